@@ -662,7 +662,6 @@ pub struct Runner {
 	pub o: usize,
 	base_len: usize,
 	gchain: Vec<Block>,
-	ldk_best: BlockHash,
 	obs: Observer,
 	debug: bool,
 	out: RunOut,
@@ -727,14 +726,12 @@ impl Runner {
 		tracked_desc.sort();
 		let all_hashes: HashSet<[u8; 32]> = sim.pays.iter().map(|p| p.hash.0).collect();
 		let base_len = sim.w.nodes[o].blocks.lock().unwrap().len();
-		let ldk_best = sim.w.nodes[o].best_block_hash();
 		let mut r = Runner {
 			sim,
 			spec,
 			o,
 			base_len,
 			gchain: vec![],
-			ldk_best,
 			obs,
 			debug,
 			out: RunOut::default(),
@@ -1060,8 +1057,23 @@ impl Runner {
 		}
 	}
 
+	/// the best blocks the library objects themselves report (manager first, then every monitor)
+	fn ldk_bests(&self) -> Vec<BlockHash> {
+		let nd = &self.sim.w.nodes[self.o];
+		let mut v = vec![nd.node.current_best_block().block_hash];
+		let cm = &nd.chain_monitor.chain_monitor;
+		for id in cm.list_monitors() {
+			if let Ok(m) = cm.get_monitor(id) {
+				v.push(m.current_best_block().block_hash);
+			}
+		}
+		v
+	}
+
+	/// manager and monitors all consider the client's tip their best block
 	fn aligned(&self) -> bool {
-		self.ldk_best == self.o_tip().0
+		let tip = self.o_tip().0;
+		self.ldk_bests().iter().all(|h| *h == tip)
 	}
 
 	/// tell both objects the client's tip as best block (Confirm)
@@ -1072,7 +1084,6 @@ impl Runner {
 		let (tip_block, h) = self.sim.w.nodes[self.o].blocks.lock().unwrap().last().unwrap().clone();
 		self.say(format!("  align: best_block_updated({}, {})", short_hash(&tip_block.block_hash()), h));
 		self.with_confirm(false, |x| x.best_block_updated(&tip_block.header, h));
-		self.ldk_best = tip_block.block_hash();
 		self.after_o_call()
 	}
 
@@ -1089,7 +1100,6 @@ impl Runner {
 				for b in blocks.iter() {
 					self.say(format!("  connect_block[{:?}]({}) txs={}", connect_style_of(*s), short_hash(&b.block_hash()), b.txdata.len()));
 					connect_block(&self.sim.w.nodes[self.o], b);
-					self.ldk_best = b.block_hash();
 					self.after_o_call()?;
 				}
 			},
@@ -1111,13 +1121,11 @@ impl Runner {
 							self.with_listen(*mgr_first, |x| x.filtered_block_connected(&b.header, &txdata, h));
 							given.extend(m);
 							first = false;
-							self.ldk_best = b.block_hash();
 							self.resync_told();
 						}
 					} else {
 						self.say(format!("  block_connected({}, {}) txs={}", short_hash(&b.block_hash()), h, b.txdata.len()));
 						self.with_listen(*mgr_first, |x| x.block_connected(b, h));
-						self.ldk_best = b.block_hash();
 					}
 					self.after_o_call()?;
 				}
@@ -1135,7 +1143,10 @@ impl Runner {
 				// after a reorg announced only through transaction_unconfirmed the objects' best block is on the old
 				// branch: no transaction may be confirmed under a header outside the chain of the last
 				// best_block_updated, so a best block of the new chain comes first
-				let stale = !self.o_chain_hashes().contains(&self.ldk_best) && self.ldk_best != self.sim.w.nodes[self.o].blocks.lock().unwrap()[self.base_len - 1].0.block_hash();
+				let stale = {
+					let known: HashSet<BlockHash> = self.sim.w.nodes[self.o].blocks.lock().unwrap().iter().map(|b| b.0.block_hash()).collect();
+					self.ldk_bests().iter().any(|h| !known.contains(h))
+				};
 				let batch_tip_first = *best_first && *skip_best;
 				let mut heights = vec![];
 				if batch_tip_first || stale {
@@ -1146,7 +1157,6 @@ impl Runner {
 					let (tb, th) = (blocks.last().unwrap().clone(), *heights.last().unwrap());
 					self.say(format!("  best_block_updated({}, {}) [tip first]", short_hash(&tb.block_hash()), th));
 					self.with_confirm(*mgr_first, |x| x.best_block_updated(&tb.header, th));
-					self.ldk_best = tb.block_hash();
 					self.after_o_call()?;
 				}
 				for (bi, b) in blocks.iter().enumerate() {
@@ -1155,7 +1165,6 @@ impl Runner {
 					if per_block_best && *best_first {
 						self.say(format!("  best_block_updated({}, {})", short_hash(&b.block_hash()), h));
 						self.with_confirm(*mgr_first, |x| x.best_block_updated(&b.header, h));
-						self.ldk_best = b.block_hash();
 						self.after_o_call()?;
 					}
 					let mut given: HashSet<usize> = HashSet::new();
@@ -1181,7 +1190,6 @@ impl Runner {
 					if per_block_best && !*best_first {
 						self.say(format!("  best_block_updated({}, {})", short_hash(&b.block_hash()), h));
 						self.with_confirm(*mgr_first, |x| x.best_block_updated(&b.header, h));
-						self.ldk_best = b.block_hash();
 						self.after_o_call()?;
 					}
 				}
@@ -1212,13 +1220,7 @@ impl Runner {
 				self.set_style(*s);
 				self.out.modes.insert(format!("helper-disconnect:{:?}", connect_style_of(*s)));
 				self.say(format!("  disconnect_blocks[{:?}]({})", connect_style_of(*s), d));
-				// what the helper leaves the objects with as best block depends on the style
-				let st = connect_style_of(*s);
 				disconnect_blocks(&self.sim.w.nodes[self.o], d);
-				use lightning::ln::functional_test_utils::ConnectStyle as CS;
-				if !matches!(st, CS::BestBlockFirstReorgsOnlyTip | CS::TransactionsFirstReorgsOnlyTip) {
-					self.ldk_best = self.o_tip().0;
-				}
 				self.after_o_call()?;
 			},
 			Disc::Unconfirm { then_best, mgr_first } => {
@@ -1271,7 +1273,6 @@ impl Runner {
 						let mut blocks = self.sim.w.nodes[self.o].blocks.lock().unwrap();
 						blocks.truncate(next as usize + 1);
 					}
-					self.ldk_best = loc.block_hash;
 					cur = next;
 					self.after_o_call()?;
 				}
@@ -1352,10 +1353,12 @@ impl Runner {
 			TEv::Claim(p) => {
 				self.say(format!("#{} CLAIM pay#{}", idx, p));
 				let synced = self.o_chain_hashes() == self.gchain.iter().map(|b| b.block_hash()).collect::<Vec<_>>() && self.aligned();
-				if !synced && *p < self.sim.pays.len() && (self.sim.pays[*p].to == self.o || self.sim.pays[*p].path_nodes.contains(&self.o)) {
-					// an off-chain input (claim_funds / a fulfil arriving) reaches O while the library's view of the chain
-					// lags: what it does with it (e.g. whether the HTLC was already failed back for being too close to its
-					// expiry) depends on more than the chain it is told about eventually
+				let global_height = (self.base_len + self.gchain.len()) as u32 - 1;
+				let near_expiry = *p < self.sim.pays.len() && self.sim.pays[*p].cltv_expiry <= global_height.max(self.max_height_told) + lightning::chain::channelmonitor::HTLC_FAIL_BACK_BUFFER + 2;
+				if !synced && near_expiry && (self.sim.pays[*p].to == self.o || self.sim.pays[*p].path_nodes.contains(&self.o)) {
+					// an off-chain input (claim_funds / a fulfil arriving) reaches O close to the HTLC's expiry while the
+					// library's view of the chain lags: whether the HTLC was already failed back for being too close to
+					// its expiry depends on more than the chain it is told about eventually
 					self.know.insert(format!("claim-while-not-synced pay#{}", p));
 					self.out.labels.insert("claim-arrives-while-not-synced".into());
 				}
@@ -1425,6 +1428,29 @@ impl Runner {
 					set.insert(format!("{}:{}", op.txid, op.vout));
 				}
 			}
+		}
+		// claims against outputs of a transaction that was reorganised out and whose input is now spent by another
+		// confirmed transaction can never become valid
+		let mut stale: Vec<String> = vec![];
+		{
+			let told_spender: HashMap<OutPoint, Txid> = self.mirror.iter().flat_map(|m| m.2.iter()).filter_map(|t| self.rel_txs.get(t)).flat_map(|t| t.input.iter().map(move |i| (i.previous_output, t.compute_txid()))).collect();
+			for tx in self.sim.broadcasts[o][before..].iter() {
+				for i in tx.input.iter() {
+					let op = i.previous_output;
+					if confirmed.contains(&op.txid) {
+						continue;
+					}
+					if let Some(parent) = self.rel_txs.get(&op.txid) {
+						if parent.input.iter().any(|pi| told_spender.get(&pi.previous_output).map(|s| *s != op.txid).unwrap_or(false)) {
+							stale.push(format!("{}:{}", op.txid, op.vout));
+						}
+					}
+				}
+			}
+		}
+		if !stale.is_empty() {
+			self.out.labels.insert("claim-pursued-against-output-of-replaced-transaction".into());
+			self.say(format!("  stale claims against outputs of replaced transactions: {:?}", stale));
 		}
 		for op in self.obs.bump_outpoints.drain(..) {
 			if exists(&op, &self.obs.funding_rev) {
@@ -1636,13 +1662,6 @@ impl Runner {
 					}
 					for _ in 0..d {
 						self.sim.chain.disconnect_tip();
-					}
-					{
-						// ChainSim::disconnect_tip restores outputs that were created *and* spent inside the disconnected
-						// block (its undo record re-inserts every spent output): drop outputs of unconfirmed transactions
-						let ch = &mut self.sim.chain;
-						let confirmed = &ch.confirmed;
-						ch.utxo.retain(|op, _| confirmed.contains_key(&op.txid));
 					}
 					let to_height = self.sim.chain.height();
 					self.sim.rec(SEvent::Reorged { to_height });
